@@ -1,7 +1,8 @@
 import Cx.Model.RevSuffix
 /-
   Cx.Model.MetaFind — the CORE DISPATCH of the meta engine for the strategies UseNFA / UseDFA / UseBoth / UseBoundedBacktracker
-  (`meta/find_indices.go`, commit 83f9184; line numbers of that commit), transliterated branch by branch over ABSTRACT component oracles, in the style of
+  (`meta/find_indices.go`; line numbers of commit 83f9184, the UseBoundedBacktracker functions as of HEAD a92eaaa, i.e. after the
+  fixes fffbd3b / ecab302 / b09f397, which moved no function by more than two lines), transliterated branch by branch over ABSTRACT component oracles, in the style of
   `Cx.Model.RevSuffix` / `Cx.Model.RevInner`.  The components have their own models and theorems (`Cx.Model.Dfa`,
   `Cx.Model.DfaRev`, `Cx.Model.Pike`, `Cx.Model.Nfa`); this file is about the way they are combined: prefilter skip-ahead, the
   two-pass bidirectional DFA search (forward DFA → end, reverse DFA → start), literal fast paths, engine choice by `CanHandle`.
@@ -30,7 +31,9 @@ import Cx.Model.RevSuffix
   simd.IsASCII(haystack[lo:hi])                                                 isASCIIIn h lo hi     (computed, not an oracle)
   e.longest, e.prefilterPartialCoverage, e.dfa != nil, e.reverseDFA != nil, e.nfaStateCount, e.canMatchEmpty,
       e.boundedBacktracker != nil, e.asciiBoundedBacktracker != nil, e.anchoredFirstBytes != nil,
-      e.nfa.IsAlwaysAnchored(), e.isStartAnchored, the constant 4096 of the ASCII check                Params.*
+      e.nfa.IsAlwaysAnchored(), e.isStartAnchored                                                       Params.*
+  !e.longest && e.dfa != nil && e.reverseDFA != nil   (the guard of all five calls of
+      findIndicesBidirectionalDFALongest, since ecab302)                          dfaFallback P
   findIndicesBidirectionalDFACore = findIndicesBidirectionalDFA           (l.681-710)   bidirectionalCore (= bidirectional)
   findIndicesBidirectionalDFALongest                                      (l.716-737)   bidirectionalLongest
   findIndicesNFA                                                          (l.110-163)   findIndicesNFA
@@ -40,9 +43,9 @@ import Cx.Model.RevSuffix
   findIndicesDFAAt = findIndicesDFAAtWithState                    (l.330-364, 368-400)  findIndicesDFAAt
   findIndicesAdaptive                                                     (l.445-499)   findIndicesAdaptive
   findIndicesAdaptiveAt = findIndicesAdaptiveAtWithState          (l.502-543, 404-442)  findIndicesAdaptiveAt
-  findIndicesBoundedBacktracker                                           (l.741-774)   findIndicesBT
-  findIndicesBoundedBacktrackerAt                                         (l.786-834)   findIndicesBTAt
-  findIndicesBoundedBacktrackerAtWithState                                (l.1287-1362) findIndicesBTAtWithState
+  findIndicesBoundedBacktracker                                      (HEAD l.743-776)   findIndicesBT
+  findIndicesBoundedBacktrackerAt                                    (HEAD l.788-834)   findIndicesBTAt
+  findIndicesBoundedBacktrackerAtWithState                           (HEAD l.1287-1360) findIndicesBTAtWithState
   isMatchNFA / isMatchDFA / isMatchAdaptive (meta/ismatch.go l.81-181); pikevm.IsMatch, boundedBacktracker.IsMatchWithState,
       `size >= capacity*9/10` of CacheStats                  isMatchNFA / isMatchDFA / isMatchAdaptive; Oracles.pikeIsMatch / .btIsMatch / .dfaCacheNearlyFull
   FindIndices / FindIndicesAt = findIndicesAtWithState, restricted to the four strategies
@@ -54,6 +57,15 @@ import Cx.Model.RevSuffix
   `Cx.Proofs.DfaCache`), `CacheStats` (its result only feeds a counter), the `*Match` wrappers of find.go.
   `-1` answers are `none`; a span is `(start, end)`.  Offsets of `btSlice`/`asciiSlice` are relative to `lo` as in the code; the
   model adds `at` back (`shift`).  `haystack[at:]` panics for `at > len`; the model then slices the empty range.
+
+  Changes since 83f9184 that the model follows:
+    fffbd3b  the ASCII check of `findIndicesBoundedBacktrackerAt(WithState)` is `simd.IsASCII(remaining)`: the WHOLE remaining
+             input, no 4096-byte prefix for start-anchored patterns (`Params.asciiCheckLimit` and `asciiCheckEnd` are gone;
+             `e.isStartAnchored` is no longer read by any modelled function — the field stays for the driver's flag `S`);
+    ecab302  every call of `findIndicesBidirectionalDFALongest` is guarded by `!e.longest` (`dfaFallback`): in leftmost-longest
+             mode the `CanHandle` fallback is the Pike VM (or the windowed backtracker + Pike VM);
+    b09f397  `Engine.SetLongest` configures the ASCII backtracker too — a change of the COMPONENT behind `Oracles.asciiSlice`
+             (it now honours the mode like `bt` / `btSlice` / `pike`), not of the dispatch.
 -/
 namespace Cx.MetaFind
 open Cx
@@ -118,9 +130,8 @@ structure Params where
   hasAsciiBT : Bool := false
   hasFirstBytes : Bool := false
   alwaysAnchored : Bool := false
+  /-- `e.isStartAnchored`: read by no modelled function any more (until fffbd3b it limited the ASCII check to 4096 bytes) -/
   isStartAnchored : Bool := false
-  /-- the constant 4096 of the ASCII check (a parameter so that small counter-models exist) -/
-  asciiCheckLimit : Nat := 4096
   deriving Repr, Inhabited
 
 /-- the four strategies whose dispatch is modelled -/
@@ -283,30 +294,30 @@ def findIndicesAdaptiveAt (O : Oracles) (P : Params) (h : Bytes) (at_ : Nat) : O
 def firstByteRejects (O : Oracles) (P : Params) (h : Bytes) : Bool :=
   P.hasFirstBytes && decide (h.size > 0) && !O.firstByteOK (h.at 0)
 
+/-- `!e.longest && e.dfa != nil && e.reverseDFA != nil`: the guard of every call of `findIndicesBidirectionalDFALongest`
+    (the forward DFA reports the end of the leftmost-FIRST match, so the two-pass search is not used in `Longest()` mode) -/
+def dfaFallback (P : Params) : Bool := !P.longest && P.hasDFA && P.hasReverseDFA
+
 /-- `findIndicesBoundedBacktracker(haystack)` -/
 def findIndicesBT (O : Oracles) (P : Params) (h : Bytes) : Option Span :=
   if !P.hasBT then findIndicesNFA O P h
   else if firstByteRejects O P h then none
-  else if P.alwaysAnchored && !O.btCanHandle h.size then O.pike h 0                     -- l.756
+  else if P.alwaysAnchored && !O.btCanHandle h.size then O.pike h 0                     -- l.758
   else if !O.btCanHandle h.size then
-    if P.hasDFA && P.hasReverseDFA then bidirectionalLongest O h 0 else O.pike h 0      -- l.762-769
-  else O.bt h 0                                                                         -- l.773
-
-/-- `asciiCheck`: `remaining`, cut to 4096 bytes for start-anchored patterns; returns its end -/
-def asciiCheckEnd (P : Params) (h : Bytes) (at_ : Nat) : Nat :=
-  if P.isStartAnchored && decide (h.size - at_ > P.asciiCheckLimit) then at_ + P.asciiCheckLimit else h.size
+    if dfaFallback P then bidirectionalLongest O h 0 else O.pike h 0                    -- l.764-771
+  else O.bt h 0                                                                         -- l.775
 
 /-- `findIndicesBoundedBacktrackerAt(haystack, at)` -/
 def findIndicesBTAt (O : Oracles) (P : Params) (h : Bytes) (at_ : Nat) : Option Span :=
   if !P.hasBT then findIndicesNFAAt O P h at_
   else
     let n := h.size - at_                                                               -- len(remaining)
-    if P.hasAsciiBT && isASCIIIn h at_ (asciiCheckEnd P h at_) then
+    if P.hasAsciiBT && isASCIIIn h at_ h.size then                                      -- simd.IsASCII(remaining)
       if !O.asciiCanHandle n then
-        if P.hasDFA && P.hasReverseDFA then bidirectionalLongest O h at_ else O.pike h at_
+        if dfaFallback P then bidirectionalLongest O h at_ else O.pike h at_
       else shift at_ (O.asciiSlice h at_ h.size)
     else if !O.btCanHandle n then
-      if P.hasDFA && P.hasReverseDFA then bidirectionalLongest O h at_ else findIndicesNFAAt O P h at_
+      if dfaFallback P then bidirectionalLongest O h at_ else findIndicesNFAAt O P h at_
     else shift at_ (O.btSlice h at_ h.size)
 
 /-- `findIndicesBoundedBacktrackerAtWithState(haystack, at, state)`: adds the first-byte rejection at `at == 0` and the
@@ -316,9 +327,9 @@ def findIndicesBTAtWithState (O : Oracles) (P : Params) (h : Bytes) (at_ : Nat) 
   else if decide (at_ = 0) && firstByteRejects O P h then none
   else
     let n := h.size - at_
-    if P.hasAsciiBT && isASCIIIn h at_ (asciiCheckEnd P h at_) then
+    if P.hasAsciiBT && isASCIIIn h at_ h.size then                                      -- simd.IsASCII(remaining)
       if !O.asciiCanHandle n then
-        if P.hasDFA && P.hasReverseDFA then bidirectionalLongest O h at_
+        if dfaFallback P then bidirectionalLongest O h at_
         else
           let w := if decide (O.asciiMaxInput > 0) && decide (n > O.asciiMaxInput)
                    then shift at_ (O.asciiSlice h at_ (at_ + O.asciiMaxInput)) else none    -- window := remaining[:maxInput]
@@ -327,7 +338,7 @@ def findIndicesBTAtWithState (O : Oracles) (P : Params) (h : Bytes) (at_ : Nat) 
           | none => O.pike h at_
       else shift at_ (O.asciiSlice h at_ h.size)
     else if !O.btCanHandle n then
-      if P.hasDFA && P.hasReverseDFA then bidirectionalLongest O h at_
+      if dfaFallback P then bidirectionalLongest O h at_
       else
         let w := if decide (O.btMaxInput > 0) && decide (n > O.btMaxInput)
                  then shift at_ (O.btSlice h at_ (at_ + O.btMaxInput)) else none
